@@ -15,7 +15,8 @@ from allmydata.storage.immutable import ShareFile
 from allmydata.storage.mutable import MutableShareFile
 from allmydata.util import fileutil
 
-MODS = [ss_mod, imm_mod, mut_mod, cr_mod, ex_mod, fileutil]
+import twisted.python.filepath as _fp_mod   # FilePath.open()/remove() write the crawler state files
+MODS = [ss_mod, imm_mod, mut_mod, cr_mod, ex_mod, fileutil, _fp_mod]
 
 
 def gen_case(seed, tier):
